@@ -1,2 +1,2 @@
-/- C11 — theorems are being added. -/
-import DsdVerif.Model.World
+/- C11 — macrostates and reactions are (multi)sets: theorems are in Props/C11Sets.lean. -/
+import DsdVerif.Props.C11Sets
